@@ -11,6 +11,7 @@ import UtreexoVerif.Driver.ProofUpdate
 import UtreexoVerif.Driver.Alias
 import UtreexoVerif.Driver.Conc
 import UtreexoVerif.Driver.ConcLin
+import UtreexoVerif.Driver.PollardHeap
 
 namespace UtreexoVerif.Driver
 open Std
@@ -18,6 +19,7 @@ open Std
 def handleLine (line : String) : M Unit := do
   modify fun s => { s with lineNo := s.lineNo + 1 }
   if line.isEmpty || line.startsWith "#" then return
+  phHook line (line.splitOn " ")
   match line.splitOn " " with
   | "fn" :: rest => handleFn line rest
   | ["new"] => handleNew
@@ -52,6 +54,7 @@ def handleLine (line : String) : M Unit := do
   | "concstress" :: rest => handleConcStress line rest
   | ["conctable"] => handleConcTable line
   | "conclin" :: rest => handleConcLin line rest
+  | "ph" :: rest => handlePH line rest
   | _ => parseError line
 
 partial def loop (h : IO.FS.Stream) : M Unit := do
